@@ -34,7 +34,7 @@ func runC16(c *mon.Ctx) {
 		c.Inconclusive("cannot locate own executable: " + err.Error())
 		return
 	}
-	n := c.N(1200, 4800) // thorough: race-detector build, one child process per history
+	n := c.N(1000, 4000) // thorough: race-detector build, one child process per history
 	blocked := 0
 	for i := 0; i < n && blocked < 3; i++ {
 		hid := int64(i)*int64(c.NShards) + int64(c.Shard)
